@@ -18,8 +18,19 @@ InRange(v, n) == ~IsZero(v) /\ Lt(v, n)
 
 (*   "der-mutated": a damaged DER encoding of a genuine signature (bytes in e.der): if the strict decoder of     *)
 (*   SigCodec.tla rejects it the outcome must be BadSignatureError (if it still decodes, no verdict here)        *)
+(*   "built-for-e": a signature built OUTSIDE the library for an explicit e (bytes in e.e): k G from the library's *)
+(*   multiplication, r = x(kG) mod n, s = (e + r d) / k in CPython integers.  It satisfies the verification       *)
+(*   equation for the digest e.digest exactly when e is the FIPS 186-4 conversion of that digest - the leftmost   *)
+(*   min(8 len, bitlen n) bits, reduced mod n - which TLC decides here on bytes; for any other e (one bit too few *)
+(*   or too many, cut to a byte length, not reduced) the signature is an ordinary forgery attempt.                 *)
+LeftBitsB(digest, n) == LET l == 8 * Len(digest) b == BitLen(n)
+                        IN  IF l > b THEN Strip(Shr(digest, l - b)) ELSE Strip(digest)
+RightE(e) == Eq(ModOnce(Strip(e.e), e.n), ModOnce(LeftBitsB(e.digest, e.n), e.n)) /\ Le(Strip(e.e), Dbl(e.n))
+
 Want(e) ==
-  IF e.cls = "der-mutated" THEN (IF DecDerSig(e.der).ok THEN e.out ELSE "BadSignatureError")
+  IF e.cls = "built-for-e" THEN (IF ~(InRange(e.r, e.n) /\ InRange(e.s, e.n)) THEN "BadSignatureError"
+                                 ELSE IF RightE(e) THEN "True" ELSE "BadSignatureError")
+  ELSE IF e.cls = "der-mutated" THEN (IF DecDerSig(e.der).ok THEN e.out ELSE "BadSignatureError")
   ELSE IF e.cls = "long-digest-no-truncate" THEN "BadDigestError"
   ELSE IF ~(InRange(e.r, e.n) /\ InRange(e.s, e.n)) THEN "BadSignatureError"
   ELSE IF e.cls \in {"genuine", "low-s-twin"} THEN "True"
